@@ -148,7 +148,8 @@ def bitmap_locals(f):
             if l not in vis:
                 continue
             rel, d = rules.cmp_rejects(f, comp)
-            if rel is not None:
+            # both usual forms, `(x & !MASK) == 0` and `(x & MASK) == x`, refuse when the two sides DIFFER
+            if rel == "Ne":
                 ent["rejecting"].append(comp["bb"])
                 # how many bit-masks lie between the value read from the input and the tested value: exactly one (the
                 # test's own mask) means the RAW value is tested; two or more mean an already masked copy is tested
